@@ -20,6 +20,7 @@ from concurrent.futures import FIRST_COMPLETED, ProcessPoolExecutor, wait
 from multiprocessing import get_context
 
 from . import shrink as shrinker
+from .core import Verdict
 from .util import canonical_json, derive_seed, digest, jsonable
 from .world import market_time
 
@@ -148,7 +149,7 @@ def run_check(prop_id, tier, base_seed, budget_s, jobs, max_runs=None, quiet=Fal
         "evaluations": 0, "status": Counter(), "stats": Counter(), "fired": Counter(),
         "digests": set(), "shapes": set(), "states": set(), "mtime": 0, "subs": Counter(),
         "samples": {}, "known_hit": Counter(), "dt": 0.0, "redo": 0, "nontrivial_runs": 0,
-        "nontrivial_by_sub": Counter(), "runs_by_sub": Counter(),
+        "nontrivial_by_sub": Counter(), "runs_by_sub": Counter(), "redo_mismatch": [],
     }
     # regression: reproducers of fixed (and known) findings are replayed first; a fixed one that
     # violates again is reported like any other violation (a fixed entry suppresses nothing)
@@ -235,6 +236,11 @@ def run_check(prop_id, tier, base_seed, budget_s, jobs, max_runs=None, quiet=Fal
         code = EXIT_HARNESS
     elif violation is not None:
         code, vio_info = _handle_violation(prop, base_seed, violation, known, agg)
+    if code == EXIT_OK and agg["redo_mismatch"]:
+        print(f"HARNESS-ERROR property={prop_id} determinism: run(s) {agg['redo_mismatch'][:5]} gave a different "
+              f"digest when re-executed in the same process (harness nondeterminism or hidden process-global "
+              f"state in the library)", flush=True)
+        code = EXIT_HARNESS
     # vacuity guard
     if code == EXIT_OK:
         calm = prop.SUBBATCHES[0]
@@ -293,8 +299,11 @@ def _merge(agg, rec, prop, base_seed, known):
     if rec.get("status") == "harness":
         return "harness"
     if rec.get("redo_ok") is False:
-        rec["error"] = f"determinism: run {rec['i']} gave a different digest when re-executed"
-        return "harness"
+        # The same trace gave another digest when executed a second time in the same process.  Either
+        # the harness is not deterministic, or the LIBRARY keeps hidden process-global state.  The run
+        # goes on: a violation that replays in a fresh interpreter is still a violation; without one
+        # the check ends as a harness error (never as a pass).
+        agg["redo_mismatch"].append(rec["i"])
     if "redo_ok" in rec:
         agg["redo"] += 1
     agg["evaluations"] += 1
@@ -332,22 +341,42 @@ def _handle_violation(prop, base_seed, rec, known, agg):
     """Shrink, re-match against known findings, write replay, confirm in a fresh interpreter."""
     trace = plan_run(base_seed, prop, rec["i"])
     v0 = prop.execute(trace)
-    if v0.status != "violation" or v0.signature != rec["sig"]:
-        print(f"HARNESS-ERROR property={prop.ID} run {rec['i']} did not reproduce in the parent "
-              f"({rec['sig']} vs {v0.status} {v0.signature})", flush=True)
-        return EXIT_HARNESS, None
-    small, v = shrinker.shrink(prop, trace, v0.signature, time_limit=float(os.environ.get("VERIF_SHRINK_S", "60")))
-    path = write_replay(prop.ID, small, v)
+    minimised = False
+    if v0.status == "violation" and v0.signature == rec["sig"]:
+        try:
+            small, v = shrinker.shrink(prop, trace, v0.signature,
+                                       time_limit=float(os.environ.get("VERIF_SHRINK_S", "60")))
+            minimised = True
+        except RuntimeError:
+            small, v = trace, v0
+    else:
+        # Re-executing the trace in this process gave another result than the worker got: the library
+        # (or the harness) keeps state across executions.  Minimisation is pointless then; the unshrunk
+        # trace goes to a fresh interpreter, whose verdict decides.
+        small, v = trace, v0
+    path = write_replay(prop.ID, small, v if v.status == "violation" else Verdict(
+        status="violation", signature=rec["sig"], op_index=rec.get("op_index", -1)))
     rc, out = replay_fresh(path)
-    if rc != EXIT_VIOLATION or v.signature not in out:
-        print(f"HARNESS-ERROR property={prop.ID} violation {v.signature} did not replay in a fresh "
-              f"interpreter (rc={rc}); replay={path}\n{out[-2000:]}", flush=True)
-        return EXIT_HARNESS, None
-    print(f"violation: {v.signature} at op {v.op_index} of {len(small['ops'])} "
-          f"(run index {rec['i']}, seed {trace['seed']}); detail={json.dumps(jsonable(v.detail))[:600]}",
-          flush=True)
-    print(f"VIOLATION property={prop.ID} replay={path}", flush=True)
-    return EXIT_VIOLATION, {"signature": v.signature, "replay": path, "index": rec["i"]}
+    if rc == EXIT_VIOLATION and minimised and v.signature in out:
+        print(f"violation: {v.signature} at op {v.op_index} of {len(small['ops'])} "
+              f"(run index {rec['i']}, seed {trace['seed']}); detail={json.dumps(jsonable(v.detail))[:600]}",
+              flush=True)
+        print(f"VIOLATION property={prop.ID} replay={path}", flush=True)
+        return EXIT_VIOLATION, {"signature": v.signature, "replay": path, "index": rec["i"]}
+    if rc == EXIT_VIOLATION and not minimised:
+        sig = next((ln.split(" ", 1)[1] for ln in out.splitlines()
+                    if ln.startswith(("REPRODUCED ", "DIFFERENT "))), rec["sig"])
+        if known_match(known, prop.ID, sig) is not None:
+            agg["known_hit"][sig] += 1
+            return EXIT_OK, None
+        print(f"violation: {sig} (run index {rec['i']}, seed {trace['seed']}); NOT minimised: executing the same "
+              f"trace twice in one process gives different results (hidden process-global state), the replay "
+              f"file holds the full trace and reproduces in a fresh interpreter", flush=True)
+        print(f"VIOLATION property={prop.ID} replay={path}", flush=True)
+        return EXIT_VIOLATION, {"signature": sig, "replay": path, "index": rec["i"]}
+    print(f"HARNESS-ERROR property={prop.ID} violation {rec['sig']} did not replay in a fresh "
+          f"interpreter (rc={rc}); replay={path}\n{out[-2000:]}", flush=True)
+    return EXIT_HARNESS, None
 
 
 # ----------------------------------------------------------------------------- evidence
